@@ -251,6 +251,9 @@ pub struct Engine<'a> {
     /// C16 image mode: when set, every quiescent point (`check_committed`) hands the directory and
     /// the oracle's committed map to `image::snapshot` (behaviour is unchanged when `None`)
     pub image_sink: Option<crate::image::Snapshots>,
+    /// take an image snapshot only at every n-th quiescent point (0 / 1 = every one)
+    pub snapshot_every: usize,
+    quiescent_points: usize,
     /// C16 image mode: mostly 600..1300-byte inline values, so that leaves hold 3-4 keys and a few
     /// thousand keys need several bottom-level branch nodes (default false: unchanged generator)
     pub fat_values: bool,
@@ -292,6 +295,8 @@ impl<'a> Engine<'a> {
             force_witness: false,
             events: BTreeMap::new(),
             image_sink: None,
+            snapshot_every: 1,
+            quiescent_points: 0,
             fat_values: FAT.load(std::sync::atomic::Ordering::Relaxed),
             probe_extra: vec![],
         };
@@ -844,7 +849,8 @@ impl<'a> Engine<'a> {
             let k = if self.rng.chance(3, 4) { *self.rng.pick(&keys) } else { self.gen_key() };
             self.dread(&k, why);
         }
-        if self.image_sink.is_some() {
+        self.quiescent_points += 1;
+        if self.image_sink.is_some() && (self.snapshot_every <= 1 || self.quiescent_points % self.snapshot_every == 0) {
             let occ = self.db.as_ref().map(|d| d.hash_table_utilization().occupied);
             if let Some(snaps) = self.image_sink.as_mut() {
                 snaps.snapshot(&self.dir, &self.committed, why, occ);
